@@ -498,7 +498,7 @@ func checkC04(c *ev.Ctx) {
 		} else {
 			c.Count("damage_detected", 1)
 		}
-		if i%40009 == 0 {
+		if i%9973 == 0 {
 			c.Sample(map[string]any{"seed": s.ID, "modification": name, "arg": j.arg, "ctor_error": fmt.Sprint(cerr), "read_error": fmt.Sprint(rerr)})
 		}
 	})
